@@ -76,6 +76,11 @@ PROPS["C07"] = {
          "bounds": {"N": 4, "edges": "all 2^16 adjacency matrices + optional dangling edge", "map order": "sorted"}},
         {"pkg": "types", "name": "VerifC07_Order3", "quick": {}, "thorough": {},
          "bounds": {"N": 3, "edges": "all DAGs over index order", "markings": "enabled/disabled/foreground per process", "map order": "every iteration order"}},
+        {"pkg": "types", "name": "VerifC07_Order3Replicas", "quick": {}, "thorough": {}, "replay_repeat": 40,
+         "bounds": {"N": 3, "p0": "2 replicas addressed by the process name", "map order": "sorted"}},
+        {"pkg": "app", "name": "VerifC07_Select", "quick": {}, "thorough": {}, "replay_repeat": 40,
+         "bounds": {"N": 3, "edges": "all DAGs over index order", "requested": "every subset", "no-deps": "both", "foreground": "every marking", "p0": "1 or 2 replicas",
+                    "map order": "sorted"}},
         {"pkg": "types", "name": "VerifC07_Order4", "thorough": {"wall": 3000},
          "bounds": {"N": 4, "map order": "sorted"}},
     ],
